@@ -48,6 +48,10 @@ pub fn format(
 
     merge_ranges(&mut ranges, open_structure_remove_range);
     merge_overlapped_ranges(&mut ranges);
+    #[cfg(feature = "verif-hooks")]
+    crate::verif::emit(|| crate::verif::Event::FormatRanges {
+        ranges: ranges.iter().map(|r| (r.start, r.end)).collect(),
+    });
 
     ranges
         .into_iter()
